@@ -15,14 +15,14 @@ import (
 
 // graphCase is one labelled graph of the workload with its reference values.
 type graphCase struct {
-	workload  string
-	class     string // graph6 of the class representative / generated graph
-	labelling int    // index of the relabelling
-	perm      []int  // vertex i of g = vertex perm[i] of the class representative
-	g         *rg.G  // the labelled model
-	ref       *ref
-	g6        string
-	id        string   // name used in keys instead of the graph6 string (large structured graphs)
+	workload   string
+	class      string // graph6 of the class representative / generated graph
+	labelling  int    // index of the relabelling
+	perm       []int  // vertex i of g = vertex perm[i] of the class representative
+	g          *rg.G  // the labelled model
+	ref        *ref
+	g6         string
+	id         string   // name used in keys instead of the graph6 string (large structured graphs)
 	cliqueSets []string // closed-form list of the maximal cliques (sorted strings of sorted sets), nil: brute force
 }
 
@@ -216,13 +216,24 @@ func (s *snapshot) diff(t *snapshot) string {
 
 // buildReprs constructs the representations of cs.g.  Library constructors of
 // views run inside guarded calls.
-func buildReprs(c *engine.Ctx, cs *graphCase, r *engine.Rng) []repr {
+func buildReprs(c *engine.Ctx, cs *graphCase, r *engine.Rng, only map[string]bool) []repr {
 	g := cs.g
 	n := g.N
 	key := "build-representation|" + cs.keyID()
 	out := []repr{
 		{name: "dense", how: "rg.Dense()", h: g.Dense()},
 		{name: "sparse", how: "rg.Sparse()", h: g.Sparse()},
+	}
+	if only != nil {
+		var keep []repr
+		for _, rp := range out {
+			if only[rp.name] {
+				keep = append(keep, rp)
+			}
+		}
+		if !only["view"] && !only["compl"] && !only["compl2"] {
+			return keep
+		}
 	}
 	// induced view of a larger graph
 	extra := 1 + r.Intn(3)
@@ -319,7 +330,7 @@ func runCase(c *engine.Ctx, cs *graphCase, opt runOpts) {
 			orders = append(orders, opt.rng.Perm(n))
 		}
 	}
-	for _, rp := range buildReprs(c, cs, opt.rng) {
+	for _, rp := range buildReprs(c, cs, opt.rng, opt.reps) {
 		if c.Stopped() {
 			return
 		}
@@ -340,13 +351,21 @@ func runCase(c *engine.Ctx, cs *graphCase, opt runOpts) {
 		}
 		c.Obs("rep:"+rp.name, 1)
 		if n >= 4 && g.M() >= 2 {
-			c.NT(cs.keyID(), cs.labelling, rp.name)
+			c.NT(cs.keyID(), rp.name)
 		}
 		j := newJudge(c, cs, rp.name, rp.how, rp.V)
 		j.cliqueNumbers(rp.h)
-		j.maximalCliques(rp.h, opt.rng)
-		j.chromaticNumber(rp.h)
-		j.kColorable(rp.h)
+		if !opt.noCliques {
+			j.maximalCliques(rp.h, opt.rng)
+		}
+		if !opt.noChi {
+			j.chromaticNumber(rp.h)
+		}
+		if opt.fixedKs {
+			j.kColorable(rp.h, opt.ks)
+		} else {
+			j.kColorable(rp.h, nil)
+		}
 		if opt.index {
 			j.chromaticIndex(rp.h)
 		}
@@ -552,8 +571,12 @@ func (j *judge) maximalCliques(h graph.Graph, r *engine.Rng) {
 	n := g.N
 	var want []string
 	limit := 1<<20 + 1
-	haveRef := n <= maxListN
-	if haveRef {
+	haveRef := n <= maxListN || j.cs.cliqueSets != nil
+	switch {
+	case j.cs.cliqueSets != nil:
+		want = j.cs.cliqueSets
+		limit = len(want) + 1
+	case n <= maxListN:
 		b := brute.FromRG(g, n)
 		for _, s := range b.MaximalCliques() {
 			var vs []int
@@ -566,7 +589,9 @@ func (j *judge) maximalCliques(h graph.Graph, r *engine.Rng) {
 		}
 		sort.Strings(want)
 		limit = len(want) + 1 // one value too many is over-production
-	} else if n < 20 {
+	case j.cs.ref.nCliques >= 0:
+		limit = j.cs.ref.nCliques + 1 // only the number is known (each one is still checked from the definition)
+	case n < 20:
 		limit = 1<<uint(n) + 1
 	}
 	buffer := 0
@@ -608,8 +633,11 @@ func (j *judge) maximalCliques(h graph.Graph, r *engine.Rng) {
 	if haveRef {
 		sort.Strings(got)
 		if strings.Join(got, ";") != strings.Join(want, ";") {
-			j.violation("AllMaximalCliques", "wrong-set", "", extra, strings.Join(got, " "), strings.Join(want, " "))
+			j.violation("AllMaximalCliques", "wrong-set", "", extra, fmt.Sprintf("%d cliques: %s", len(got), strings.Join(got, " ")), fmt.Sprintf("%d cliques: %s", len(want), strings.Join(want, " ")))
 		}
+	} else if k := j.cs.ref.nCliques; k >= 0 && len(got) != k {
+		// distinct maximal cliques, each verified: a different number means some are missing
+		j.violation("AllMaximalCliques", "wrong-set", "", extra, fmt.Sprintf("%d distinct maximal cliques", len(got)), fmt.Sprintf("%d maximal cliques (closed form)", k))
 	}
 }
 
@@ -636,11 +664,16 @@ func (j *judge) chromaticNumber(h graph.Graph) {
 	}
 }
 
-func (j *judge) kColorable(h graph.Graph) {
+func (j *judge) kColorable(h graph.Graph, ks []int) {
 	c := j.c
 	r := j.cs.ref
 	n := j.cs.g.N
-	for k := 0; k <= n+1; k++ {
+	if ks == nil {
+		for k := 0; k <= n+1; k++ {
+			ks = append(ks, k)
+		}
+	}
+	for _, k := range ks {
 		var ok bool
 		var col []int
 		c.Obs("calls:IsKColorable", 1)
@@ -730,7 +763,7 @@ func (j *judge) degeneracy(h graph.Graph) {
 		j.panicked("Degeneracy", "", nil, pi)
 		return
 	}
-	if got != r.degen {
+	if r.degen >= 0 && got != r.degen {
 		j.violation("Degeneracy", "wrong", "", nil, fmt.Sprintf("%d, order %v", got, order), fmt.Sprintf("%d (largest minimum degree of an induced subgraph)", r.degen))
 		return
 	}
